@@ -29,6 +29,7 @@ type fsNode struct {
 	exec    value // bool / symBool: any x bit set
 	target  string
 	perm    uint32
+	mtime   int64 // modification time on the engine's virtual clock (ns); set on creation and by WriteFile / Chtimes
 }
 
 type fsEntry struct {
@@ -360,7 +361,7 @@ func (fr *frame) fileInfo(name value, n *fsNode) value {
 	if n.kind == nFile {
 		size = fr.convInt(strLenValue(normStr(n.content)), types.Int64)
 	}
-	return iface{t: t, v: structure{name, size, fr.modeValue(n)}}
+	return iface{t: t, v: structure{name, size, fr.modeValue(n), n.mtime}}
 }
 
 // ---------------------------------------------------------------------------------
@@ -385,7 +386,7 @@ func (fr *frame) fsOpenPerm(path value, create, excl, trunc, write bool, op stri
 			return (*value)(nil), fr.pathError("open", path, eNOENT)
 		}
 		// a newly created file gets perm (umask 022): only the executable bits matter to the model
-		e = &fsEntry{name: base, node: &fsNode{kind: nFile, content: "", exec: perm&0111 != 0, perm: perm &^ 022}}
+		e = &fsEntry{name: base, node: &fsNode{kind: nFile, content: "", exec: perm&0111 != 0, perm: perm &^ 022, mtime: fr.sched().now}}
 		d.entries = append(d.entries, e)
 	} else {
 		if create && excl {
@@ -471,6 +472,7 @@ func init() {
 		}
 		of := fr.fileOf(f)
 		of.node.content = bytesArgToStr(a[1])
+		of.node.mtime = fr.sched().now
 		return nilErr
 	})
 	register("os.ReadDir", func(fr *frame, a []value) value {
@@ -657,6 +659,20 @@ func init() {
 		}
 		d2.entries = append(d2.entries, &fsEntry{name: base2, node: e1.node}) // same inode
 		return nilErr
+	})
+	register("os.Chtimes", func(fr *frame, a []value) value {
+		d, _, e := fr.fsResolve(a[0], true)
+		if d == nil || e == nil {
+			return fr.pathError("chtimes", a[0], eNOENT)
+		}
+		e.node.mtime = a[2].(structure)[1].(int64)
+		return nilErr
+	})
+	register("(grog/internal/zzverif/fsm.Info).ModTime", func(fr *frame, a []value) value {
+		t := fr.typeOf("time", "Time")
+		z := zero(t).(structure)
+		z[1] = a[0].(structure)[3]
+		return z
 	})
 	register("os.Getwd", func(fr *frame, a []value) value {
 		if s, ok := fr.run().objs["cwd"].(string); ok {
